@@ -3,6 +3,7 @@ from __future__ import annotations
 
 import ast
 import json
+import os
 import time
 from typing import Any
 
@@ -266,13 +267,42 @@ def model_rows(m: Any, t: S.SymTable) -> list[dict[str, Any]]:
     return rows
 
 
+CROSS_CHECK = False
+
+
+def cvc5_agrees(solver: Any) -> Any:
+    """Second opinion on an unsat answer: the same assertions as SMT-LIB text through the cvc5 binary.
+    True = cvc5 says unsat too, False = it says something else, None = cvc5 not usable here."""
+    import shutil
+    import subprocess
+    import tempfile
+    exe = shutil.which("cvc5")
+    if not exe:
+        return None
+    with tempfile.NamedTemporaryFile("w", suffix=".smt2", delete=False) as f:
+        f.write("(set-logic ALL)\n" + solver.to_smt2())
+        path = f.name
+    try:
+        p = subprocess.run([exe, "--lang=smt2", "--tlimit=60000", path], capture_output=True, text=True, timeout=90)
+        out = (p.stdout or "").strip().splitlines()
+        if any("(error" in l for l in out) or not out:
+            return None
+        return out[0].strip() == "unsat"
+    except Exception:  # noqa
+        return None
+    finally:
+        os.unlink(path)
+
+
 def run(tier: str) -> int:
+    global CROSS_CHECK
+    CROSS_CHECK = tier == "thorough"
     chk = core.Check("C11", tier, "model_checking")
     chk.encode(SQLF, "remove_inconsistent_jobs, remove_jobs_outside_of_time_window, update_job_names_by_root_span, "
                      "_remove_orphaned_node_associations: SQLAlchemy statements built by the real methods -> z3 (sa2smt)")
     chk.encode(BASEF, "get_time_window, DataHolder.min_timestamp/max_timestamp (executed on symbolic ints, vlib/symexec)")
     chk.encode(DRV, "otel_to_pv: order of the cleaning calls read from the AST")
-    sizes = [3, 4] if tier == "quick" else [3, 4, 5, 6]
+    sizes = [3, 4, 5] if tier == "quick" else [3, 4, 5, 6, 7]
     chk.bounds = {"store": f"every store of up to N node rows, N in {sizes} (presence bits, all columns symbolic; ids coded as ints)",
                   "window": "tracked min/max timestamps and time_buffer arbitrary non-negative ints (incl. the 'nothing ingested' defaults)"}
     chk.outside = ["traces with two or more root spans (workflow name then unspecified)", "timestamps beyond 2**62",
@@ -337,7 +367,11 @@ def _run(chk: core.Check, sizes: list[int]) -> None:
                 dt = time.time() - tq
                 nm = f"path{pi}.N={N}.{clause}"
                 if r == "unsat":
-                    chk.held(nm, "z3", dt, statements=len(stmts))
+                    second = cvc5_agrees(s) if (CROSS_CHECK and N <= 4) else None
+                    if second is False:
+                        chk.unknown(nm, "z3+cvc5", dt, "cvc5 does not confirm z3's unsat on the same SMT-LIB text")
+                    else:
+                        chk.held(nm, "z3" if second is None else "z3+cvc5", dt, statements=len(stmts))
                 elif r == "sat":
                     m = s.model()
                     rows = model_rows(m, tabs0["nodes"])
